@@ -120,6 +120,15 @@ def programs():
         ]
     )
     yield "loop-gate-END-then-target", {"g": endloop}, [{"count": 0}, {"count": 1}]
+    empties = T.prog(
+        [
+            T.route("gn", ["e0"], ["tp", "END"], behav={"py": "None"}),
+            T.fn("tp", ["e0"], ["t0"]),
+            T.fn("log", ["e0"], []),
+            T.fn("val", ["e0"], ["v0"]),
+        ]
+    )
+    yield "empty-entries", {"g": empties}, [{"e0": ["v", 0]}, {"e0": ["v", 1]}]
     shared = T.prog([T.fn("n1", ["e0"], ["p"], func_key="F", fname="shared_fn"), T.fn("n2", ["e0"], ["q"], func_key="F", fname="shared_fn"), T.fn("use", ["p", "q"], ["u0"])])
     yield "shared-function-outputs", {"g": shared}, [{"e0": ["v", 0]}, {"e0": ["v", 1]}]
     g1 = T.prog([T.fn("m1", ["a", "b"], ["p"], func_key="G", fname="two_arg_fn")])
@@ -350,19 +359,25 @@ def disk_faults(acc, name, progs, cprogs, variants, sub, hist, tier):
                 old = hc.pickle
                 hc.pickle = spy
                 try:
-                    vs2, info2 = run_history(progs, cprogs, variants, [hist[-1]], "disk", d1)
+                    vs2, info2 = run_history(progs, cprogs, variants, [hist[-1], hist[-1]], "disk", d1)
                 except Exception as e:  # noqa: BLE001
                     vs2, info2 = [("exception-after-corruption", f"{type(e).__name__}: {str(e)[:120]}")], None
                 finally:
                     hc.pickle = old
                 acc.evaluations += 1
                 acc.key((name, sub, repr(hist), "corrupt", ki, kind))
-                bad_loads = [b for b in spy.loaded if b not in authentic]
+                auth_now = set(authentic)
+                if info2 is not None:
+                    auth_now |= {v for _, v in info2["proxy"].writes if isinstance(v, bytes)}  # what the post-fault runs re-stored
+                bad_loads = [b for b in spy.loaded if b not in auth_now]
                 # the LRU model in run_history starts empty -> it predicts every cacheable node runs; the real cache still
                 # holds the undamaged entries, so only 'cached-run-differs' and exceptions are judged here
                 for sym, msg in vs2:
                     if sym.startswith("cached-run-differs") or sym.startswith("exception"):
                         acc.violation({"symptom": sym, "fault": kind}, {**w, "fault": ["corrupt", ki, kind]}, f"{name} after {kind} of entry {ki}: {msg}")
+                    elif msg.startswith("run #2") and sym == "function-invoked-despite-retained-entry":
+                        # the first post-fault run re-stored the damaged entry, the second must hit everything
+                        acc.violation({"symptom": "damaged-entry-never-restored", "fault": kind}, {**w, "fault": ["corrupt", ki, kind]}, f"{name} after {kind} of entry {ki}: {msg}")
                 if bad_loads:
                     acc.violation({"symptom": "unauthenticated-bytes-unpickled", "fault": kind}, {**w, "fault": ["corrupt", ki, kind]}, f"{name} after {kind} of entry {ki}: pickle.loads was called on {len(bad_loads)} byte string(s) the cache never wrote")
                 if info2 is not None:
